@@ -7,7 +7,11 @@ extra = {"C03-1": ["C03", "C09"], "C14-1": ["C14", "C19"], "C09-1": ["C09", "C03
          "C15-2": ["C15", "C18"]}
 # seeds that exposed a genuine defect of the pinned tree which has since been repaired in /repo: with the repair in
 # place the seeded change no longer breaks the property (its demonstration passes), so no check is expected to fire
-superseded = {"C15-2": "the seed removed the follower/read-only checks of the read-write script handler, reachable from EVALRO/EVALNA only "
+superseded = {"C18-2": "the seed stopped clearing the EVAL_CMD/DEADLINE globals of a finished call; a nested WHEREEVAL script on a pooled interpreter then "
+                       "inherited the read-write kind. Since fix 0509b0a the kind of a call is kept in the Lua registry and a stale EVAL_CMD global has no "
+                       "effect: the seed's demonstration passes on the repaired tree (patch.diff is the change re-based onto it, patch.orig.diff the original). "
+                       "The property speaks of KEYS/ARGV only, so the check no longer demands that EVAL_CMD is cleared.",
+              "C15-2": "the seed removed the follower/read-only checks of the read-write script handler, reachable from EVALRO/EVALNA only "
                        "because a script could assign EVAL_CMD; that was a genuine defect (fix 0509b0a: the call kind is kept in the Lua registry). "
                        "On the repaired tree the handler is reachable from EVAL/EVALSHA only, which are gated before the script runs, and the seed's demonstration passes."}
 needs = {}
